@@ -106,6 +106,40 @@ fn is_plain_ident(e: &syn::Expr) -> bool {
 }
 
 impl V {
+    /// `a == b` where exactly one side is a string the closure binds itself (its parameter, a `let` of its
+    /// body, or a dereference of one) and the other a plain variable from outside: the whole-string
+    /// comparison of the probed string with a stored one.
+    fn is_whole_string_eq(&self, e: &syn::Expr, c: &syn::ExprClosure) -> bool {
+        let e = match e {
+            syn::Expr::Paren(p) => &*p.expr,
+            e => e,
+        };
+        let syn::Expr::Binary(b) = e else { return false };
+        if !matches!(b.op, syn::BinOp::Eq(_)) {
+            return false;
+        }
+        let bound = closure_bound(c);
+        let name = |x: &syn::Expr| -> Option<String> {
+            let mut x = x;
+            loop {
+                match x {
+                    syn::Expr::Paren(p) => x = &p.expr,
+                    syn::Expr::Unary(u) if matches!(u.op, syn::UnOp::Deref(_)) => x = &u.expr,
+                    syn::Expr::Reference(r) => x = &r.expr,
+                    _ => break,
+                }
+            }
+            if is_plain_ident(x) {
+                Some(toks(x))
+            } else {
+                None
+            }
+        };
+        match (name(&b.left), name(&b.right)) {
+            (Some(l), Some(r)) => bound.contains(&l) != bound.contains(&r),
+            _ => false,
+        }
+    }
     fn push(&mut self, kind: &str, shape: &str, text: &str) {
         self.sites.push(format!(
             "{{ file := {}, func := {}, kind := {kind}, shape := {shape}, text := {} }}",
@@ -158,6 +192,12 @@ impl<'ast> Visit<'ast> for V {
             let shape = if m.args.len() == 1 && is_plain_ident(&m.args[0]) { ".hashOneWhole" } else { ".other" };
             self.push(".call", shape, &toks(m));
         } else if matches!(name.as_str(), "insert_with_hasher" | "find_or_find_insert_slot" | "shrink_to" | "shrink_to_fit") {
+            if name == "find_or_find_insert_slot" {
+                if let Some(syn::Expr::Closure(c)) = m.args.iter().nth(1) {
+                    let ok = closure_result(c).map(|r| self.is_whole_string_eq(r, c)).unwrap_or(false);
+                    self.push(".probeEq", if ok { ".hashOneWhole" } else { ".other" }, &toks(c));
+                }
+            }
             // the closure the table calls to re-hash an entry when it grows or shrinks: it has to hash the
             // whole string of the entry it is given (a string it binds itself, not a captured value)
             let ok = match m.args.last() {
@@ -173,6 +213,11 @@ impl<'ast> Visit<'ast> for V {
             let t = m.args.last().map(|a| toks(a)).unwrap_or_default();
             self.push(".rehash", if ok { ".hashOneWhole" } else { ".other" }, &t);
         } else if name == "from_hash" || name == "from_key_hashed_nocheck" {
+            // the equality closure of the probe: `<probe string> == <string of the stored key>`, nothing else
+            if let Some(syn::Expr::Closure(c)) = m.args.iter().nth(1) {
+                let ok = closure_result(c).map(|r| self.is_whole_string_eq(r, c)).unwrap_or(false);
+                self.push(".probeEq", if ok { ".hashOneWhole" } else { ".other" }, &toks(c));
+            }
             // the hash handed to the raw-entry API must be the binding `hash`
             let ok = m.args.first().map(|a| toks(a) == "hash").unwrap_or(false);
             let t = m.args.first().map(|a| toks(a)).unwrap_or_default();
